@@ -2,5 +2,28 @@
 // --cfg falcon_rust_verif).
 include!(concat!(env!("FALCON_RUST_VERIF_DIR"), "/hooks/common.rs"));
 
+/// The leaf case of ffSampling (Algorithm 11, n = 1): two calls of SamplerZ with the leaf's width,
+/// first for t0 then for t1.  Compared with Algorithm 15 on the same random values.
+pub(crate) fn leaf_case(mu0: f64, mu1: f64, sigma: f64, n: usize, seed: u64) -> Result<(), String> {
+    use rand::SeedableRng;
+    let params = crate::falcon::verif::params_of(n);
+    let sigmin = if n == 512 { 1.2778336969128337f64 } else { 1.298280334344292f64 };
+    let got = std::panic::catch_unwind(|| {
+        let t = (Polynomial::new(vec![Complex64::new(mu0, 0.0)]), Polynomial::new(vec![Complex64::new(mu1, 0.0)]));
+        let tree = LdlTree::Leaf([Complex64::new(sigma, 0.0), Complex64::new(0.0, 0.0)]);
+        let mut rng = rand::rngs::StdRng::seed_from_u64(seed);
+        let (z0, z1) = ffsampling(&t, &tree, &params, &mut rng);
+        (z0.coefficients[0].re, z1.coefficients[0].re)
+    });
+    let (z0, z1) = match got { Ok(v) => v, Err(_) => return Err("ffsampling panics on a leaf".into()) };
+    let mut rng = rand::rngs::StdRng::seed_from_u64(seed);
+    let w0 = crate::samplerz::verif::ref_sampler_z(mu0, sigma, sigmin, &mut rng) as f64;
+    let w1 = crate::samplerz::verif::ref_sampler_z(mu1, sigma, sigmin, &mut rng) as f64;
+    if z0 != w0 || z1 != w1 {
+        return Err(format!("ffsampling on a leaf of width {} with centres ({}, {}) returns ({}, {}) but SamplerZ(mu, sigma', sigma_min) on the same random values gives ({}, {})", sigma, mu0, mu1, z0, z1, w0, w1));
+    }
+    Ok(())
+}
+
 harnesses! {
 }
